@@ -238,6 +238,10 @@ func (c *Context) ask(system bool, recipient vivid.ActorRef, message vivid.Messa
 		c.system.removeFuture(agentRef)
 	})
 	c.system.appendFuture(agentRef, futureIns)
+	if futureIns.Closed() {
+		// 极短的超时可能在登记之前就已触发并执行了注销（此时尚无登记可注销），登记后需补做一次注销，否则该登记将永久残留
+		c.system.removeFuture(agentRef)
+	}
 
 	envelop := mailbox.NewEnvelop(system, agentRef.ref, recipient, message)
 	receiverMailbox := c.system.findMailbox(recipient.(*Ref))
